@@ -251,6 +251,20 @@ pub fn check(tier: &str, rep: &mut Report) {
     rep.states += (hn.len() * 3) as u64;
     rep.evaluations += (hn.len() * 3) as u64;
     rep.transitions += (hn.len() * 6) as u64;
+    // the byte-level helpers behind all constructors and renderings
+    for c in 0..=255u8 {
+        let want = bits(c);
+        let ok = debruijn::base_to_bits(c) == want.unwrap_or(0) && debruijn::dna_only_base_to_bits(c) == want && debruijn::is_valid_base(c) == want.is_some();
+        if !ok {
+            rep.violation(Violation { signature: "byte-helper-wrong".into(), case: json!({"helper_byte": c}), detail: format!("base_to_bits / dna_only_base_to_bits / is_valid_base disagree with the table for byte {:#04x}", c) });
+        }
+        let (a, b) = (debruijn::bits_to_ascii(c), debruijn::bits_to_base(c));
+        let wanted = if c < 4 { b"ACGT"[c as usize] } else { b'X' };
+        if a != wanted || b != wanted as char {
+            rep.violation(Violation { signature: "byte-helper-wrong".into(), case: json!({"helper_byte": c}), detail: format!("bits_to_ascii / bits_to_base({}) = {:?} / {:?}", c, a as char, b) });
+        }
+    }
+    rep.transitions += 512;
     rep.extra.insert("avx2_available".into(), json!(avx2));
     if !avx2 {
         rep.assumptions.push("this machine has no AVX2: both runs used the scalar path, the vector path was NOT exercised".into());
